@@ -104,7 +104,8 @@ PLANS["C03"] = {
     "rule": "satisfiable-biased scripts with get-model, get-value and get-assignment after every check; non-trivial = a model was printed",
 }
 PLANS["C04"] = {
-    "jobs": lambda seed, tier: spread(seed, "C04", N(tier, 110, 2200), ALL_LOGICS, "incremental"),
+    "jobs": lambda seed, tier: spread(seed, "C04", N(tier, 80, 1600), ALL_LOGICS, "incremental") +
+                               spread(seed, "C04c", N(tier, 90, 1800), ["QF_BOOL", "QF_LRA", "QF_UF", "QF_LIA", "QF_IDL", "QF_UFLRA"], "incremental", mode="cnf"),
     "rule": "incremental histories (push/pop/assert/check/get-*) plus, for every check-sat, a fresh run on the flattened "
             "active assertions; memo keyed by the specification's own Active set",
 }
